@@ -235,6 +235,11 @@ def run_one(ch, cfg):
         pdoc = base_request(ch, ch.pick(cmds + (["sign"] * 4 if not v1 else ["sign"]), "earlier.command"), v1)
         if ch.draw(3, "earlier.mutated") == 1:
             pdoc, _k = mutate(ch, pdoc)
+        same = ch.draw(4, "earlier.same")
+        if same == 1:
+            pdoc = copy.deepcopy(doc)            # a client that simply retries the very request
+        elif same == 2 and isinstance(doc, dict) and isinstance(pdoc, dict) and "keyId" in doc:
+            pdoc["keyId"] = copy.deepcopy(doc["keyId"])      # another request about the same key id
         try:
             pline = json.dumps(pdoc)
         except (TypeError, ValueError):
